@@ -46,11 +46,34 @@ def lfilter_df2t(b, a, x, zi):
     z = list(zi) + [0.0]
     y = []
     for xm in x:
-        ym = b[0] * xm + z[0]
+        ym = _trim(b[0] * xm + z[0])
         for i in range(n - 1):
-            z[i] = b[i + 1] * xm + z[i + 1] - a[i + 1] * ym
+            z[i] = _trim(b[i + 1] * xm + z[i + 1] - a[i + 1] * ym)
         y.append(ym)
     return y, z[:-1]
+
+
+_TRIM_BITS = 320
+
+
+def _trim(v):
+    """keep long linear recurrences cheap: round the exact rational coefficients of a linear form to dyadics with
+    320 fractional bits (absolute error 2**-320 per coefficient, far below every tolerance used)."""
+    if isinstance(v, SR) and v.q is None:
+        sc = 1 << _TRIM_BITS
+        big = False
+        for c in v.p.values():
+            if c.denominator.bit_length() > 2 * _TRIM_BITS:
+                big = True
+                break
+        if big:
+            p = {}
+            for m, c in v.p.items():
+                r = Fraction_(round(c * sc), sc)
+                if r:
+                    p[m] = r
+            return SR(p) if p else 0.0
+    return v
 
 
 def filtfilt(b, a, x, axis=-1, padtype='odd', padlen=None, method='pad', irlen=None):
